@@ -31,6 +31,8 @@ def consts_for_tlc(c):
         SetterArgs=Fn({k: set(tuple(x) for x in v) for k, v in c["setter_args"].items()}),
         InitTreat=Fn(c.get("treat", {9: 4, 10: 4, 11: 2})),
         InitErrDev=set(c.get("errdev", [0, 1, 2, 3, 11])),
+        InitRegd=set(x["v"] for x in c.get("customs", [])),
+        RegCalls=[dict(v=x["v"], t=x.get("t", -1), e=bool(x.get("e")), clash=bool(x.get("clash"))) for x in c.get("reg_calls", [])],
         WLevels=set(c.get("wlevels", [])),
         # harness/rec.go: writer id w is LevelSettable iff (w-1) % 4 in {2, 3}
         WantsLevel=set(c.get("wants_level", [w for w in range(1, 33) if (w - 1) % 4 in (2, 3)])),
@@ -69,6 +71,10 @@ def label_to_event(label):
         return dict(op="SetAttrsR", l=0, k="", a=a[0], b=0)
     if name == "DbgMode":
         return dict(op="DbgMode", l=0, k="", a=a[0], b=0)
+    if name == "VrbMode":
+        return dict(op="VrbMode", l=0, k="", a=a[0], b=0)
+    if name == "Register":
+        return dict(op="Register", l=0, k="", a=a[0], b=0)
     if name == "PkgSkip":
         return dict(op="PkgSkip", l=0, k=a[0], a=a[1], b=0)
     if name == "LogA":
@@ -145,6 +151,10 @@ def random_behaviours(c, rng, count, depth, max_loggers):
                 beh.append(dict(op="SetAttrsR", l=0, k="", a=rng.randint(0, 1), b=0))
             elif op == "DbgMode":
                 beh.append(dict(op="DbgMode", l=0, k="", a=rng.randint(0, 1), b=0))
+            elif op == "VrbMode":
+                beh.append(dict(op="VrbMode", l=0, k="", a=rng.randint(0, 1), b=0))
+            elif op == "Register":
+                beh.append(dict(op="Register", l=0, k="", a=rng.randint(1, len(c["reg_calls"])), b=0))
             elif op == "PkgSkip":
                 k = rng.choice(["SetSkip", "WithSkip"])
                 beh.append(dict(op="PkgSkip", l=0, k=k, a=rng.choice(sorted(c["setter_args"]["Skip"]))[0], b=0))
@@ -233,6 +243,8 @@ def run_core(ctx, c, invariants, properties, obs, rand_count, rand_depth, rand_l
                   layouts=rc["layouts"], opt_lists=rc["opt_lists"], customs=rc.get("customs", []),
                   fail_sets=rc.get("fail_sets", [[]]), groups=rc.get("groups", []), ctx_vals=rc.get("ctx_vals", [[]]),
                   call_args=rc.get("call_args", [[]]), flag_sets=rc.get("flag_sets", []), behaviours=behaviours,
+                  reg_calls=[dict(v=x["v"], t=x.get("t", -1), e=bool(x.get("e")), clash=bool(x.get("clash")))
+                             for x in rc.get("reg_calls", [])], proc_per=bool(rc.get("reg_calls")),
                   ts_layouts=sorted(set(x for x in rc["layouts"] if x) | set(TS_EXPORTED)))
     sp = os.path.join(ctx.scratch, "script.json")
     with open(sp, "w") as fh:
